@@ -142,7 +142,7 @@ def differential(chk, programs, configs_for, key_for=None, nontrivial=None, work
                 # it is reported by the properties that own the verdict, and noted here
                 chk.notes.append("config %s: souffle rejected generated program %d: %s" % (cfg.name, i, se.strip().splitlines()[-1][:160] if se.strip() else ""))
                 continue
-            chk.finding(key_for(p, cfg, None) if key_for else None,
+            chk.finding(key_for(p, cfg, {"failed": rc, "stderr": se}) if key_for else None,
                         "souffle failed (status %s) under configuration %s: %s" % (rc, cfg.name, se[-300:]), replay_obj(p, cfg))
             continue
         bad = D.diff_outputs(o[1], outs)
